@@ -30,7 +30,7 @@ ASSUMPTIONS = ["equivalence is judged through Index.search / Index getters (the 
 def eq_hook(ls, op):
     for real in ls.reals:
         db = real.db
-        if real.auto and op[0] in ("probe", "probe_hit", "getters") and not db.index.valid:
+        if real.auto and op[0] in ("probe", "probe_hit", "probe_twin", "getters") and not db.index.valid:
             ls.fail("validity-after-read", real, "auto_index is on but the index is invalid after a read")
         if db.index.valid:
             # storage is observed passively (file decoded independently / plain iteration), so the comparison itself does not
